@@ -185,6 +185,18 @@ def r2(ctx):
         else:
             ctx.ok(R, '%s: every return is reached with checkers/pinned recomputed after the last dependency change' % key,
                    where(body))
+    # a private helper that writes checkers/pinned and is called only from recomputers (the slider scan split out of
+    # make_move / make_move_new): the recomputation is then spread over two functions, which this rule does not follow
+    split = []
+    for key in list(recomputers):
+        fn = f.fns.get(key) or {}
+        callers = sorted(k for k, b_ in f.bodies.items() if '::{' not in k and any(t_.get('callee') == key for _, t_ in b_.calls()))
+        if not fn.get('pub') and 'impl_trait' not in fn and callers and all(c_ in recomputers or c_ == UPI for c_ in callers):
+            split.append((key, callers))
+    for key, callers in split:
+        recomputers.remove(key)
+        ctx.inconclusive(R, 'the check/pin recomputation of %s is split into the private helper %s: the split form is not analysed' % (
+            [c_.rsplit('::', 1)[-1] for c_ in callers], key))
     for key in recomputers:
         n += 1
         recomputer(ctx, R, key)
@@ -592,6 +604,19 @@ def direct(ctx, R, key, s, loop, o, A, K, Ck):
                     is_kn = tr
                 if other and other[0] == P('Pawn'):
                     is_pw = tr
+            if cond[0] == 'discr' and cond[1] == M:
+                # `match moved { Knight => .., Pawn => .., _ => .. }`
+                kd_ = ctx.facts().enum_discr('piece::Piece', 'Knight')
+                pd_ = ctx.facts().enum_discr('piece::Piece', 'Pawn')
+                if 'otherwise' in vals:
+                    listed = [v for v, _ in t['targets']]
+                    if kd_ in listed:
+                        is_kn = False
+                    if pd_ in listed:
+                        is_pw = False
+                else:
+                    is_kn = (vals == [kd_])
+                    is_pw = (vals == [pd_])
             if cond[0] == 'discr' and cond[1][0] == 'call' and cond[1][1] == 'chess_move::ChessMove::get_promotion':
                 promo = (vals == [1])
             if cond[0] == 'discr' and cond[1][0] == 'field' and cond[1][1][0] == 'variant' and cond[1][1][1][0] == 'call' \
